@@ -157,7 +157,8 @@ def run(prop, tier, seed, rule):
         states += r.get("distinct", 0)
         transitions += r.get("generated", 0)
         runs.append({"config": "2 handlers, safety+liveness", "distinct": r.get("distinct"), "generated": r.get("generated"), "wall_s": round(r["wall_s"], 1)})
-        plans3 = PLANS if tier == "thorough" else ["read", "open", "write", "unlink", "walk", "clone", "global", "remove"]
+        # (the open plan - 8 instances - is in the 2-handler run of both tiers; with three handlers only in thorough)
+        plans3 = PLANS if tier == "thorough" else ["read", "write", "unlink", "walk", "clone", "global", "remove"]
         r = vlib.run_tlc(s, "MC_PathLocks", cfg(3, plans3, fixed, ["ContractInv", "LocksSane", "OpenOnceInv"]), name="mc-3h", timeout=2400)
         if "violated" in r:
             raise Inconclusive("PathLocks.tla violates %s (3 handlers)" % r["violated"])
